@@ -14,7 +14,7 @@ Line-protocol handler for property C01.
   C01.static <program> <observations | ->  → the two-phase resolver model on a PLAIN program:
        `skip not-plain`, or TAB separated
          static  frag=0|1  den=eq|neq|na  rt=ok|na|<class|where|param|expected|observed>  <canonical static phase>
-       frag: the decidable hypotheses of `resolver_refines_den_staticmap_checked` hold (for a
+       frag: the decidable hypotheses of `resolver_refines_den_mapstatic_checked` hold (for a
              plain program they are those of `resolver_refines_den_plain_checked`);
        den:  twoPhase = den on the recorded outs (must be `eq` whenever frag=1: the theorem);
        rt:   the model's run-time phase on the model's static phase against the OBSERVED
@@ -382,7 +382,8 @@ def staticReply (P : Program) (obs : Option Obs) : String :=
       match kv.2.exp with
       | .split _ _ e => hasFork e
       | _ => false) then "skip map-source-depends-on-map-call" else
-  let frag := wellTypedMB P && acyclicB P.table && decide ((s.2.map fun n => fqid n.path).Nodup)
+  let frag := wellTypedGB P && acyclicB P.table && staticProgramOk P fqid &&
+    decide ((s.2.map fun n => fqid n.path).Nodup)
   let (denV, rtV) :=
     match obs with
     | none => ("na", "na")
